@@ -1,6 +1,9 @@
 package progenum
 
-import "fmt"
+import (
+	"fmt"
+	"strings"
+)
 
 // NestingForms: every parent/child/side combination of the binary operators
 // (and the unary, call-argument, index, conversion, store and condition
@@ -70,6 +73,11 @@ func NestingForms(tier string) []Form {
 		n("tuple_"+ch.name, pre+fmt.Sprintf("q1, q2 := two(x %s %s)\nr = q1\nrb = q2", ch.tok, safe(ch, "z")))
 		n("append_arg_"+ch.name, pre+fmt.Sprintf("xs = append(xs, x %s %s)", ch.tok, safe(ch, "z")))
 	}
+	// every expression hole of every construct x every kind of non-atomic operand: a printer
+	// that drops the parentheses around one operand kind in one context changes the parse
+	holeMatrix(func(id, code string, prims bool) {
+		out = append(out, Form{ID: "nest_hole_" + id, Code: code, Family: "nesting", Prims: prims})
+	})
 	n("str_concat_nested", "rs = (s + \"a\") + (s + \"b\")")
 	n("str_eq_of_concat", "rb = s+\"a\" == \"a\"+s")
 	n("if_in_seq", pre+"if x < y {\n\tr = 1\n}\nr = r + z")
@@ -87,4 +95,56 @@ func NestingForms(tier string) []Form {
 		}
 	}
 	return out
+}
+
+func holeMatrix(add func(id, code string, prims bool)) {
+	type kv struct{ id, code string }
+	fill := func(tmpl, e string) string {
+		// "($)" keeps Go's own precedence right where the hole is an operand of % in the template
+		return strings.ReplaceAll(tmpl, "$", e)
+	}
+	k64 := []kv{{"field", "sp.f"}, {"nestedfield", "sv.in.h"}, {"deref", "*p"}, {"call", "sumTo(2)"}, {"method", "sp.addTo(1)"}, {"index", "xs[1]"},
+		{"mapget", "m[1]"}, {"len", "uint64(len(xs))"}, {"binop", "x + 1"}, {"conv", "uint64(w)"}, {"varload", "a"}, {"callcall", "apply(mkAdder(1), y)"}}
+	h64 := []kv{{"binop_l", "r = $ - y"}, {"binop_r", "r = x - $"}, {"mul_l", "r = $ * y"}, {"bitnot", "r = ^$"}, {"conv", "r32 = uint32($)"},
+		{"callarg1", "r = addBoth($, y)"}, {"callarg2", "r = addBoth(x, $)"}, {"methodarg", "r = sp.addTo($)"},
+		{"index", "r = xs[($)%3]"}, {"mapkey", "r = m[$]"}, {"mapinsert_key", "m[$] = 5"}, {"mapinsert_val", "m[2] = $"}, {"delete_key", "delete(m, $)"},
+		{"store_var", "a = $"}, {"store_deref", "*p = $"}, {"store_field", "sp.g = $"}, {"store_elem", "xs[2] = $"}, {"opassign", "a += $"},
+		{"structlit", "q := S2{a: $, b: 1}\nr = q.a"}, {"make_len", "ys := make([]uint64, ($)%4)\nr = uint64(len(ys))"},
+		{"append_elem", "xs = append(xs, $)"}, {"slice_lo", "ys := xs[($)%2:]\nr = uint64(len(ys))"}, {"slice_hi", "ys := xs[:($)%3]\nr = uint64(len(ys))"},
+		{"cmp", "rb = $ < y"}, {"ifcond", "if $ < y {\n\tr = 1\n}"}, {"forcond", "for ni := uint64(0); ni < ($)%3; ni++ {\n\tr += 1\n}"},
+		{"define", "q := $\nr = q"}, {"var_init", "var q uint64 = $\nr = q"}, {"closure_ret", "fn := func() uint64 {\n\treturn $\n}\nr = fn()"},
+		{"tuple_call", "q1, q2 := two($)\nr = q1\nrb = q2"}, {"prim_put", "bs := make([]byte, 8)\nmachine.UInt64Put(bs, $)\nr8 = bs[0]"}}
+	for _, h := range h64 {
+		for _, k := range k64 {
+			add(h.id+"_"+k.id, fill(h.code, k.code), h.id == "prim_put")
+		}
+	}
+	preS := "sw := &SW{items: xs}\npxs := &xs\n_ = sw\n_ = pxs\n"
+	ks := []kv{{"var", "xs"}, {"sub", "xs[1:]"}, {"append", "append(xs, 7)"}, {"field", "sw.items"}, {"call", "mkXs(2)"}, {"deref", "*pxs"}}
+	hs := []kv{{"range", "for _, nv := range $ {\n\tr += nv + 1\n}"}, {"range_idx", "for ni := range $ {\n\tr += uint64(ni) + 1\n}"},
+		{"len", "r = uint64(len($))"}, {"subslice_base", "ys := $[1:]\nr = uint64(len(ys))"},
+		{"append_base", "ys := append($, 9)\nr = ys[uint64(len(ys))-1] + uint64(len(ys))"}, {"copy_src", "ys := make([]uint64, 2)\nn := copy(ys, $)\nr = uint64(n) + ys[0]"},
+		{"callarg", "r = sumSlice($)"}, {"append_spread", "ys := append(xs, $...)\nr = uint64(len(ys))"}, {"store", "xs = $"},
+		{"structlit", "q := &SW{items: $}\nr = uint64(len(q.items))"}, {"define", "ys := $\nr = uint64(len(ys))"}}
+	for _, h := range hs {
+		for _, k := range ks {
+			e := k.code
+			if h.id == "subslice_base" && k.id == "deref" {
+				e = "(*pxs)" // Go's own precedence: *pxs[1:] would slice the pointer
+			}
+			add("s_"+h.id+"_"+k.id, preS+fill(h.code, e), false)
+		}
+	}
+	add("s_index_base_field", preS+"r = sw.items[1]", false)
+	add("s_index_base_deref", preS+"r = (*pxs)[1]", false)
+	preB := "var vb bool = t\n_ = vb\n"
+	kb := []kv{{"not", "!t"}, {"cmp", "x < y"}, {"field", "sv.in.k"}, {"call", "bumpRet(p)"}, {"and", "t && x < y"}, {"varload", "vb"}}
+	hb := []kv{{"ifcond", "if $ {\n\tr = 1\n} else {\n\tr = 2\n}"}, {"forcond", "var ni uint64 = 0\nfor $ && ni < 2 {\n\tni = ni + 1\n}\nr = ni"},
+		{"not", "rb = !($)"}, {"and_l", "rb = ($) && t"}, {"or_r", "rb = t || ($)"}, {"store", "rb = $"}, {"callarg", "r = b2u($)"},
+		{"eq", "rb = ($) == t"}, {"structlit", "q := In{h: 1, k: $}\nrb = q.k"}}
+	for _, h := range hb {
+		for _, k := range kb {
+			add("b_"+h.id+"_"+k.id, preB+fill(h.code, k.code), false)
+		}
+	}
 }
